@@ -342,7 +342,7 @@ ADDED9 = {
  "C16": "(M10) no printf-style format of genc.c prints a string under a precision.",
  "C17": "(R8) in the reader units the result of strchr/strrchr/strstr/strpbrk/memchr is not dereferenced directly, and a local holding it is tested before it is dereferenced (rules/nullsearch.py).",
  "C18": "(O6) now reads static predicates of the unit; (O9) the eight single-file writers of emit.c pass fileCloseOut on every path.",
- "C20": "(V10) no function of table.c, btree.c, priq.c, bitv.c, intset.c, dnf.c keeps unit-level state; an answer remembered by operand address is a violation, any other unit-level write is refused; (V11) in btree.c the branch run moved with a key run reaches one source index further; (V12) = C02-Q16 on the container units.",
+ "C20": "(V10) no function of table.c, btree.c, priq.c, bitv.c, intset.c, dnf.c keeps unit-level state; an answer remembered by operand address is a violation, any other unit-level write is refused; (V11) in btree.c the branch run moved with a key run reaches one source index further.",
 }
 for _pid, _t in ADDED9.items():
     CLAIMED[_pid]["text"] += " Round 9: " + _t
